@@ -8,11 +8,14 @@ import (
 	"sort"
 	"strings"
 	"sync"
+	"time"
 
 	"github.com/elliotchance/gedcom/v39"
 	"github.com/elliotchance/gedcom/v39/html"
 	"github.com/elliotchance/gedcom/v39/html/core"
 	xhtml "golang.org/x/net/html"
+
+	"verif/fw"
 )
 
 // Shared pieces of the publishing checks (C17, C18, C19).
@@ -190,4 +193,26 @@ func pageLinks(body []byte) []string {
 		}
 	}
 	return out
+}
+
+// runCLI runs the built gedcom binary under observation (fw.RunProcess: CPU
+// limit, zero-progress detection with a goroutine dump). A busy loop or a
+// dead-lock is reported as a violation of the calling property right here and
+// ok is false; a watchdog firing is inconclusive (ok false as well).
+func runCLI(c *fw.Ctx, what string, payload interface{}, env []string, cpuSeconds int, bin string, args ...string) (out string, err error, ok bool) {
+	res := fw.RunProcess(bin, args, env, cpuSeconds, 600*time.Second)
+	switch res.Hang {
+	case "deadlock":
+		c.Violation(what+":deadlock@"+fw.InnermostRepoFrame(res.Dump), fmt.Sprintf("gedcom %s stopped making progress (no CPU time used at all) and the goroutine dump taken with SIGQUIT shows that no goroutine of the program can run\n%s", strings.Join(args, " "), clip(res.Dump, 2500)), payload)
+		return res.Out, res.Err, false
+	case "busy-loop":
+		if !strings.Contains(res.Out, "panic: ") && !strings.Contains(res.Out, "fatal error: ") {
+			c.Violation(what+":busy-loop-cpu-limit", fmt.Sprintf("gedcom %s was killed after using more than %d s of CPU time\n%s", strings.Join(args, " "), cpuSeconds, clip(res.Out, 600)), payload)
+			return res.Out, res.Err, false
+		}
+	case "watchdog", "idle":
+		c.Inconclusive(what + "-" + res.Hang)
+		return res.Out, res.Err, false
+	}
+	return res.Out, res.Err, true
 }
